@@ -115,6 +115,7 @@ type Session struct {
 	closedChan     chan struct{} // indicate the session is closed
 	readDeadline   atomic.Int64  // read deadline, in microseconds since Unix epoch
 	writeDeadline  atomic.Int64  // write deadline, in microseconds since Unix epoch
+	respDeadline   atomic.Int64  // client only: deadline of the next read after a write, in microseconds since Unix epoch
 	inputHasErr    atomic.Bool   // input has error
 	inputErr       chan error    // this channel is closed when input has error
 	outputHasErr   atomic.Bool   // output has error
@@ -227,7 +228,7 @@ func (s *Session) Read(b []byte) (n int, err error) {
 	s.rLock.Lock()
 	defer s.rLock.Unlock()
 	defer func() {
-		s.readDeadline.Store(0)
+		s.respDeadline.Store(0)
 	}()
 	if len(b) == 0 {
 		return 0, nil
@@ -239,7 +240,11 @@ func (s *Session) Read(b []byte) (n int, err error) {
 
 	// Stop reading when deadline is reached.
 	var timeC <-chan time.Time
-	if readDeadline := s.readDeadline.Load(); readDeadline != 0 {
+	readDeadline := s.readDeadline.Load()
+	if respDeadline := s.respDeadline.Load(); respDeadline != 0 && (readDeadline == 0 || respDeadline < readDeadline) {
+		readDeadline = respDeadline
+	}
+	if readDeadline != 0 {
 		timeC = time.After(time.Until(time.UnixMicro(readDeadline)))
 	}
 
@@ -319,9 +324,6 @@ func (s *Session) Write(b []byte) (n int, err error) {
 	if s.isStateAfter(sessionClosed, true) {
 		return 0, io.ErrClosedPipe
 	}
-	defer func() {
-		s.writeDeadline.Store(0)
-	}()
 
 	// Before the first write, client needs to send open session request.
 	// Open session request is sent only once. Underlay may retry if the packet is lost.
@@ -409,6 +411,7 @@ func (s *Session) SetDeadline(t time.Time) error {
 		micros = 0
 	}
 	s.readDeadline.Store(micros)
+	s.respDeadline.Store(0)
 	s.writeDeadline.Store(micros)
 	return nil
 }
@@ -420,6 +423,7 @@ func (s *Session) SetReadDeadline(t time.Time) error {
 		micros = 0
 	}
 	s.readDeadline.Store(micros)
+	s.respDeadline.Store(0)
 	return nil
 }
 
@@ -688,7 +692,7 @@ func (s *Session) writeChunk(b []byte) (n int, err error) {
 	}
 
 	if s.isClient {
-		s.readDeadline.Store(time.Now().Add(serverRespTimeout).UnixMicro())
+		s.respDeadline.Store(time.Now().Add(serverRespTimeout).UnixMicro())
 	}
 	return len(b), nil
 }
